@@ -255,7 +255,14 @@ impl<'a, 'b> InlineState<'a, 'b> {
             Ok(x) => x,
             Err(x) => x - 1,
         };
-        self.srcmap[line].1 + (pos - self.srcmap[line].0)
+        let offset = self.srcmap[line].1 + (pos - self.srcmap[line].0);
+
+        // Spaces coming from a partially consumed tab have no bytes of their own in the source,
+        // so a position between them must not run past the place where the next segment starts.
+        match self.srcmap.get(line + 1) {
+            Some(next) => offset.min(next.1),
+            None => offset,
+        }
     }
 
     #[must_use]
